@@ -1,6 +1,7 @@
 package main
 
 import (
+	"regexp"
 	"encoding/json"
 	"fmt"
 	"os"
@@ -86,7 +87,7 @@ func (w *World) scenarioReplay(o *Options, obligation string) *replayResult {
 		return nil
 	}
 	for _, sm := range ms {
-		if !strings.Contains(obligation, sm.Obligation) {
+		if !strings.Contains(stripPropLabels(obligation), stripPropLabels(sm.Obligation)) {
 			continue
 		}
 		key := sm.Test + "@" + o.Repo
@@ -176,7 +177,7 @@ func (w *World) runScenariosFor(o *Options, obligations []string) []scenarioRun 
 	var out []scenarioRun
 	for _, ob := range obligations {
 		for _, sm := range ms {
-			if !strings.Contains(ob, sm.Obligation) || done[sm.Test] {
+			if !strings.Contains(stripPropLabels(ob), stripPropLabels(sm.Obligation)) || done[sm.Test] {
 				continue
 			}
 			done[sm.Test] = true
@@ -188,3 +189,9 @@ func (w *World) runScenariosFor(o *Options, obligations []string) []scenarioRun 
 	}
 	return out
 }
+
+var propLabelRe = regexp.MustCompile(`C\d\d(,C\d\d)*:`)
+
+// stripPropLabels removes the property prefixes of clause labels ("C01,C19:") from an obligation name, so that a
+// clause that is later scoped to one more property keeps its scenario drivers.
+func stripPropLabels(s string) string { return propLabelRe.ReplaceAllString(s, "") }
